@@ -2,6 +2,7 @@
 from __future__ import annotations
 
 import ast
+import re
 from typing import Dict, List, Optional, Tuple
 
 from . import dispatch as D
@@ -1149,6 +1150,35 @@ def s_r10_per_class_tables(schema: Schema, rep: Report):
     for fn_, st_, rd_ in computed:
         n += 1
         rep.check("S-R10", f"Aggregate.{fn_.name}:cls.<{ast.unparse(st_.args[1])}>", False, f"{fn_.name}() stores setattr(cls, {ast.unparse(st_.args[1])}, ...) and reads it back with {ast.unparse(rd_)[:40]}: the lookup follows the MRO, so a subclass used after its base is answered with the BASE's table (children and constraints the subclass adds are unknown to the reader and the constructor)", f"{ci.mod.relpath}:{st_.lineno}")
+    # the same memo kept by a DESCRIPTOR the table functions are decorated with (`@cached_classproperty`): its __get__
+    # stores on the owner class and reads back with getattr(), which follows the MRO just the same
+    p = schema.p
+    seen_dec = set()
+    for fn in fns:
+        for dec in fn.decorator_list:
+            dn = dec.func if isinstance(dec, ast.Call) else dec
+            if not isinstance(dn, ast.Name) or dn.id in seen_dec:
+                continue
+            seen_dec.add(dn.id)
+            dci = p.resolve(BASE, dn.id)
+            if not isinstance(dci, ClassInfo):
+                continue
+            for k in dci.repo_mro:
+                g = k.own_func("__get__")
+                if g is None:
+                    continue
+                params_ = {a.arg for a in g.args.args[1:]}
+                sets_ = [x for x in ast.walk(g) if isinstance(x, ast.Call) and isinstance(x.func, ast.Name) and x.func.id == "setattr" and len(x.args) == 3 and isinstance(x.args[0], ast.Name) and x.args[0].id in params_]
+                sets_ += [x for x in ast.walk(g) if isinstance(x, ast.Attribute) and isinstance(x.ctx, ast.Store) and isinstance(x.value, ast.Name) and x.value.id in params_]
+                for st_ in sets_:
+                    n += 1
+                    if isinstance(st_, ast.Call):
+                        owner_, key_ = st_.args[0].id, ast.unparse(st_.args[1])
+                        reads_ = [y for y in ast.walk(g) if isinstance(y, ast.Call) and isinstance(y.func, ast.Name) and y.func.id in ("getattr", "hasattr") and len(y.args) >= 2 and isinstance(y.args[0], ast.Name) and y.args[0].id == owner_ and ast.unparse(y.args[1]) == key_]
+                    else:
+                        owner_, key_ = st_.value.id, st_.attr
+                        reads_ = [y for y in ast.walk(g) if isinstance(y, ast.Attribute) and isinstance(y.ctx, ast.Load) and isinstance(y.value, ast.Name) and y.value.id == owner_ and y.attr == key_]
+                    rep.check("S-R10", f"{k.name}.__get__:{owner_}.<{key_[:30]}>", not reads_, f"the descriptor {k.name} (decorating Aggregate.{fn.name} ...) remembers its result with setattr({owner_}, {key_}, ...) and reads it back with {ast.unparse(reads_[0])[:40] if reads_ else ''}: attribute lookup on a class follows the MRO, so a subclass whose base was introspected first is answered with the BASE's table - the children the subclass adds are then unknown to the reader, never written, and unreachable by flat access" if reads_ else "", f"{k.mod.relpath}:{st_.lineno}")
     if n == 0:
         rep.check("S-R10", "Aggregate:no-class-level-memo", True, "no classmethod of Aggregate assigns an attribute of the class", "")
 
@@ -1244,3 +1274,68 @@ def s_r6d_route_independent_constraints(schema: Schema, rep: Report):
                 bad = bad or x
         rep.check("S-R6d", f"{ci.name}.validate_args:route-independent", bad is None, f"`{text(bad)[:60] if bad is not None else ''}` orders / computes with a kwargs value: from the parser that value is the document's text, from a caller a native object - the comparison means something else on each route (dates with different offsets, '9' > '10'), so an instance that was accepted and written can be refused when read back" if bad is not None else "", loc(ci, bad if bad is not None else fn))
     rep.floor("S-R6d", n, 10, "validate_args overrides with **kwargs")
+
+
+def s_r6e_all_equal_helper(schema: Schema, rep: Report):
+    """the helper the "no mixing" constraints are written with compares ALL members"""
+    rep.rule("S-R6e", "utils.all_equal(iterable), which the group constraints of OFX (no mixed *RQ / *RS message sets) and CONTRIBSECURITY (no mixed *PCT / *AMT) are written with, is true only if every member equals every other: recognised as the two-nexts-of-groupby form, a set of at most one member, or all(x == first ...); a comparison of DISJOINT pairs - zip(it, it) over one iterator - checks (0,1), (2,3), ... and lets the third member differ")
+    p = schema.p
+    try:
+        fn = p.get_function("ofxtools.utils", "all_equal").node
+    except AnalysisError:
+        rep.note("S-R6e undecided: utils.all_equal not found")
+        return
+    where = f"{p.module('ofxtools.utils').relpath}:{fn.lineno}"
+    src = ast.unparse(fn)
+    iters = {st.targets[0].id for st in ast.walk(fn) if isinstance(st, ast.Assign) and len(st.targets) == 1 and isinstance(st.targets[0], ast.Name) and isinstance(st.value, ast.Call) and text(st.value.func) == "iter"}
+    for c in ast.walk(fn):
+        if isinstance(c, ast.Call) and text(c.func) == "zip" and len(c.args) == 2 and all(isinstance(a, ast.Name) for a in c.args) and c.args[0].id == c.args[1].id and c.args[0].id in iters:
+            rep.check("S-R6e", "all_equal:compares-every-member", False, f"{text(c)} draws both elements of each pair from ONE iterator: the pairs are (0,1), (2,3), ... - members 1 and 2 are never compared and an odd last member is dropped, so a third message set of the other direction (or a third *AMT among *PCT) passes", where)
+            return
+    ok = None
+    if "groupby(" in src and src.count("next(") >= 2:
+        ok = True
+    elif re.search(r"len\(set\(", src) and re.search(r"(<= 1|< 2|== 1|<= 1\b)", src):
+        ok = True
+    elif re.search(r"all\(", src) and ("first" in src or "[0]" in src or "next(" in src):
+        ok = True
+    if ok:
+        rep.check("S-R6e", "all_equal:compares-every-member", True, "", where)
+    else:
+        rep.note("S-R6e undecided: the form of utils.all_equal is not one of the recognised ones")
+
+
+def s_r12_superdict_precedence(schema: Schema, rep: Report):
+    """the merged class namespace gives a subclass's declaration precedence over its base's"""
+    rep.rule("S-R12", "Aggregate._superdict merges the class dictionaries of the MRO with the subclass's definition winning: ChainMap over cls.mro() (leftmost map wins), or a loop over reversed(cls.mro()) that assigns / updates (the later, more derived class overwrites), or a loop over cls.mro() that uses setdefault (the first, more derived class stays) - the two crossed forms (reversed + setdefault, forward + update) let the BASE's element win, so a class that re-declares an inherited child (other length, scale or type) is read and written by the base's converter while assignment uses its own")
+    fn = schema.aggregate.own_func("_superdict")
+    if fn is None:
+        rep.note("S-R12 undecided: Aggregate._superdict not found")
+        return
+    where = f"{schema.aggregate.mod.relpath}:{fn.lineno}"
+    src = ast.unparse(fn)
+    verdict = None
+    for c in ast.walk(fn):
+        if isinstance(c, ast.Call) and (dotted(c.func) or "").split(".")[-1] == "ChainMap":
+            ct_ = Expander(fn).t(c)  # the maps may be gathered in a local first
+            if "mro()" not in ct_ and ".__mro__" not in ct_:
+                continue
+            verdict = "reversed(" not in ct_ and "[::-1]" not in ct_
+            why = "ChainMap over the reversed MRO: the base's definition wins"
+    loops = [l for l in ast.walk(fn) if isinstance(l, ast.For) and ("mro()" in ast.unparse(l.iter) or "__mro__" in ast.unparse(l.iter))]
+    if verdict is None and loops:
+        lp = loops[0]
+        rev = "reversed(" in ast.unparse(lp.iter) or "[::-1]" in ast.unparse(lp.iter)
+        body = ast.unparse(ast.Module(body=lp.body, type_ignores=[]))
+        keeps_first = ".setdefault(" in body or re.search(r"if \w+ not in \w+", body) is not None
+        overwrites = ".update(" in body or re.search(r"\w+\[\w+\] = ", body) is not None
+        if keeps_first and not overwrites:
+            verdict = not rev
+            why = "the MRO is walked from the root of the hierarchy down and setdefault() keeps the FIRST definition met - the base's"
+        elif overwrites and not keeps_first:
+            verdict = rev
+            why = "the MRO is walked from the class up to its bases and each base overwrites what the subclass defined"
+    if verdict is None:
+        rep.note("S-R12 undecided: the way _superdict merges the MRO is not one of the recognised forms")
+        return
+    rep.check("S-R12", "Aggregate._superdict:subclass-definition-wins", bool(verdict), f"{why}: a class that re-declares an inherited element is written and (for list elements) read by the base's converter" if not verdict else "", where)
